@@ -2,7 +2,8 @@
     Extract Constant; N, Z, positive and nat stay the extracted datatypes. *)
 From Coq Require Import Extraction ExtrOcamlBasic.
 From PM Require Import Model.Prelude Model.Domain Model.Constraint Model.BindAll Model.Scheme
-  Model.BindMaps Model.DomTable Model.DomString Model.DomMatrix Model.Toposort.
+  Model.BindMaps Model.DomTable Model.DomString Model.DomMatrix Model.Toposort Model.Automaton Model.Traversal Model.Matchers
+  Cert.LabCheck Cert.WfCheck Cert.WinCheck Cert.CharCert.
 
 Extraction Language OCaml.
 Set Extraction KeepSingleton.
@@ -15,4 +16,7 @@ Extraction "model.ml"
   (* maps *) aget abind aretain retain_default
   (* maps *) mrun retain_rounds_default mmget_panics
   (* C15 *) ts_init ts_next ts_run
+  (* engine *) run single match_exists naive
+  (* certificates *) wf_check compute_rank lab_ok compute_lab cert_complete char_entails char_refutes
+     atoms_self s_goodb m_goodb
   (* domains *) table_dom t_reqf string_dom matrix_dom s_cvec m_cvec.
